@@ -2546,6 +2546,20 @@ refill(struct evrrul_s *restrict strm)
 	}
 	/* otherwise sort the array, just in case */
 	echs_instant_sort(strm->cch, strm->ncch);
+	/* and zap duplicates, two candidates may have come out as one
+	 * instant (a wall clock time skipped by a zone's transition and
+	 * the one an hour later, say) */
+	with (size_t j = 1U) {
+		for (size_t i = 1U; i < strm->ncch; i++) {
+			if (echs_instant_eq_p(strm->cch[j - 1U], strm->cch[i])) {
+				continue;
+			}
+			strm->cch[j] = strm->cch[i];
+			strm->cch[j + GRP_CCH_OFF] = strm->cch[i + GRP_CCH_OFF];
+			j++;
+		}
+		strm->ncch = j;
+	}
 	return strm->ncch;
 }
 
